@@ -152,6 +152,9 @@ func ExportPrivateKey(keyPath string, passphrase []byte) ([]byte, error) {
 	}
 
 	// Decrypt the private key
+	if len(data.Nonce) != gcm.NonceSize() {
+		return nil, fmt.Errorf("invalid key file: nonce is %d bytes long, expected %d", len(data.Nonce), gcm.NonceSize())
+	}
 	privKeyBytes, err := gcm.Open(nil, data.Nonce, data.PrivKeyEncrypted, nil)
 	if err != nil {
 		return nil, fmt.Errorf("failed to decrypt private key (wrong passphrase): %w", err)
@@ -361,6 +364,9 @@ func (s *FileSystemSigner) loadKeys(passphrase []byte) error {
 	}
 
 	// Decrypt the private key
+	if len(data.Nonce) != gcm.NonceSize() {
+		return fmt.Errorf("invalid key file: nonce is %d bytes long, expected %d", len(data.Nonce), gcm.NonceSize())
+	}
 	privKeyBytes, err := gcm.Open(nil, data.Nonce, data.PrivKeyEncrypted, nil)
 	if err != nil {
 		return fmt.Errorf("failed to decrypt private key (wrong passphrase?): %w", err)
